@@ -18,7 +18,7 @@ MODULE = "mc.checks.c09"
 ABSENT = "nope/absent"
 
 
-def build_archives():
+def build_archives(tier="thorough"):
     import py7zr
 
     A = {}
@@ -49,6 +49,49 @@ def build_archives():
                 z.writestr(d, name)
                 pm.append({"name": name, "kind": "file", "data": d})
     A["append3"] = {"blob": bio.getvalue(), "members": pm}
+    # layouts that shift offsets and ids: data away from offset 0, a file-less folder between two others, dummy padding,
+    # folder-level CRCs only, explicit stream counts
+    C = [("COPY", {})]
+    A["gap-emptyfolder"] = {"blob": ref7z.write(ms, {"folders": [[0, 2], [], [4, 6]], "chains": [C, C, Z], "packpos": 11, "dummy": 3, "crc": "folder",
+                                                     "numunpack_omit": False}), "members": ms}
+    # two solid folders behind filters that buffer (BCJ) or ignore max_length (PPMd): skipping inside the block matters
+    ms2 = [dict(m) for m in ms]
+    for i, m in enumerate(ms2):
+        if m["kind"] == "file":
+            m["data"] = content.make("x86" if i % 2 else "repetitive", 300 + 77 * i, 20 + i)
+    A["solid2x"] = {"blob": ref7z.write(ms2, {"folders": [[0, 2], [4, 6]], "chains": [[("X86", {}), ("LZMA", {})], [("PPMD", {})]], "header": "lzma2"}), "members": ms2}
+    if tier == "quick":
+        return A
+    A["aes-multi"] = {"blob": ref7z.write(ms, {"folders": [[0], [2, 4], [6]], "chains": [[("LZMA2", {}), ("AES", {})]] * 3, "header": "lzma2+aes"}, password="pw"),
+                      "members": ms, "password": "pw"}
+    A["single-file-folders"] = {"blob": ref7z.write(ms, {"folders": [[0], [2], [4], [6]], "chains": [C, Z, [("BZIP2", {})], [("ZSTD", {})]], "crc": "both", "pack_crc": True}), "members": ms}
+    # py7zr-written tree with an empty directory, a zero-length file and nested files, then an appended folder
+    import tempfile
+
+    td = tempfile.mkdtemp(prefix="c09t", dir="/dev/shm")
+    try:
+        os.makedirs(os.path.join(td, "t/sub/emptydir"))
+        tm = []
+        for rel, size in (("t/one.txt", 40), ("t/sub/two.bin", 25), ("t/sub/zero", 0)):
+            d = content.make("repetitive", size, 31) if size else b""
+            with open(os.path.join(td, rel), "wb") as f:
+                f.write(d)
+        bio = io.BytesIO()
+        old = os.getcwd()
+        os.chdir(td)
+        try:
+            with py7zr.SevenZipFile(bio, "w") as z:
+                z.writeall("t")
+            bio.seek(0)
+            with py7zr.SevenZipFile(bio, "a", filters=chains.py_filters("COPY")) as z:
+                z.writestr(b"appended-later" * 3, "t/late.txt")
+        finally:
+            os.chdir(old)
+        r = ref7z.read(bio.getvalue(), strict=False)
+        tm = [{"name": m["name"], "kind": "dir" if m["kind"] == "dir" else "file", "data": m["data"]} for m in r["members"]]
+        A["py-tree-append"] = {"blob": bio.getvalue(), "members": tm}
+    finally:
+        shutil.rmtree(td, ignore_errors=True)
     return A
 
 
@@ -82,7 +125,7 @@ def run_case(arch, case, wd):
     else:
         src = io.BytesIO(arch["blob"])
     try:
-        with py7zr.SevenZipFile(src) as z:
+        with py7zr.SevenZipFile(src, password=arch.get("password")) as z:
             if sink == "factory":
                 f = Collect()
                 z.extract(targets=targ, recursive=recursive, factory=f)
@@ -173,7 +216,7 @@ def replay(case):
 
 def main(tier="quick", seed=0, only=None):
     chk = Check("C09", "exploration", MODULE, tier, seed)
-    archs = build_archives()
+    archs = build_archives(tier)
     tasks = []
     for aid, a in archs.items():
         n = sum(1 for _ in all_cases(a))
@@ -187,7 +230,7 @@ def main(tier="quick", seed=0, only=None):
         chk.merge_pool([r], plane=t[0])
     return chk.finish(
         rule=(
-            "3 archives (reference-written solid LZMA2 folder with 7 entries incl. 2 directories, an empty file and nested files; the same "
+            f"{len(archs)} archives (quick 5, thorough 8: data at PackPos 11 with a file-less folder, dummy padding and folder-level CRCs; two solid folders behind BCJ+LZMA and PPMd; AES folders with an AES header; four single-file folders; a py7zr-written tree with an empty directory and a zero-length file plus an appended folder; reference-written solid LZMA2 folder with 7 entries incl. 2 directories, an empty file and nested files; the same "
             "entries in 3 folders COPY/LZMA2/BZIP2 with interleaved directories and an LZMA-encoded header; py7zr-written 3 append sessions "
             "COPY/LZMA2/COPY) x ALL 2^n subsets of member names x with/without an absent name x list/set x trailing slash on/off x "
             "recursive False/True x factory/directory sink x opened by stream (sequential) / path (thread-parallel); thorough: also "
